@@ -25,18 +25,20 @@ type c12Desc struct {
 	N      int     `json:"n"`
 	Random int     `json:"random,omitempty"` // >0: that many random interruption strings instead of all 3^(n+1)
 	Kind   string  `json:"kind"`             // interrupt | mismatch
+	Roots  int     `json:"roots,omitempty"`  // >0: that many roots (header-size arithmetic at the CBOR width boundaries)
 	Big    int     `json:"big,omitempty"`    // >0: the first block's data has this many bytes (sections around the default 8 MiB read limit)
 }
 
 // c12Session abstracts "a file that can be opened for writing again and again".
 type c12Session struct {
-	api   string
-	path  string
-	mf    *iofault.MemFile
-	bs    *blockstore.ReadWrite
-	sc    *storage.StorageCar
-	fresh bool
-	eager bool
+	api     string
+	path    string
+	mf      *iofault.MemFile
+	bs      *blockstore.ReadWrite
+	sc      *storage.StorageCar
+	fresh   bool
+	eager   bool
+	notrunc bool
 }
 
 func (s *c12Session) open(roots []cid.Cid, cfg lab.Cfg) error {
@@ -48,12 +50,18 @@ func (s *c12Session) open(roots []cid.Cid, cfg lab.Cfg) error {
 		s.bs, err = blockstore.OpenReadWrite(s.path, roots, cfg.Opts()...)
 		return err
 	}
+	var target storage.ReaderAtWriterAt = s.mf
+	if s.notrunc && cfg.V1 {
+		// a CARv1 session never truncates: a backend without Truncate must do (for CARv2 the library
+		// documents that it needs one)
+		target = onlyAt{s.mf}
+	}
 	if s.fresh {
 		s.fresh = false
-		s.sc, err = storage.NewReadableWritable(s.mf, roots, cfg.Opts()...)
+		s.sc, err = storage.NewReadableWritable(target, roots, cfg.Opts()...)
 		return err
 	}
-	s.sc, err = storage.OpenReadableWritable(s.mf, roots, cfg.Opts()...)
+	s.sc, err = storage.OpenReadableWritable(target, roots, cfg.Opts()...)
 	return err
 }
 func (s *c12Session) put(b refcar.Block) error {
@@ -98,6 +106,16 @@ func runC12(t *mon.T, raw json.RawMessage) {
 	r := gen.Rand(d.Seed)
 	cfg := d.Cfg
 	content := gen.MakeContent(r, gen.ContentOpts{MinBlocks: d.N, MaxBlocks: d.N, MinRoots: 0, MaxRoots: 3, Synthetic: true, Block: gen.BlockOpts{MaxSize: 150}})
+	if d.Roots > 0 {
+		// a header of a particular shape: d.Roots roots (23/24/25: the CBOR array head grows at 24), the
+		// first one an identity CID of exactly 23 bytes (the CBOR byte-string head grows at 24)
+		content.Roots = [][]byte{refcar.MakeCidV1(0x55, 0x00, gen.Bytes(r, 19))}
+		for len(content.Roots) < d.Roots {
+			content.Roots = append(content.Roots, refcar.MakeCidV1(0x55, 0x12, gen.Bytes(r, 32)))
+		}
+		content.NilRoots = false
+		t.Cover("header-shape:many-roots")
+	}
 	blks := content.Blocks
 	if d.Big > 0 && len(blks) > 0 {
 		big := make([]byte, d.Big)
@@ -114,7 +132,10 @@ func runC12(t *mon.T, raw json.RawMessage) {
 	roots := lab.ToCids(content.Roots, content.NilRoots)
 	dir := lab.TempDir("c12")
 	defer os.RemoveAll(dir)
-	s := &c12Session{api: d.API, path: filepath.Join(dir, "s.car"), eager: d.Seed&1 == 0}
+	s := &c12Session{api: d.API, path: filepath.Join(dir, "s.car"), eager: d.Seed&1 == 0, notrunc: d.Seed&2 == 0}
+	if s.notrunc && d.API == "storage" && cfg.V1 {
+		t.Cover("storage-v1-on-a-backend-without-truncate")
+	}
 	if s.eager && d.API == "storage" {
 		t.Cover("storage-backend-with-eager-eof")
 	}
@@ -304,7 +325,7 @@ func c12Mismatch(t *mon.T, d c12Desc, s *c12Session, r *gen.RandT, roots []cid.C
 
 func genC12(g *mon.G) {
 	r := gen.Rand(g.Seed)
-	cfgs := []lab.Cfg{{}, {DataPad: 9, IndexPad: 3}, {V1: true}, {StoreID: true, Sorted: true}, {WholeCID: true, AllowDup: true}, {DataPad: 1413, StoreID: true, WholeCID: true}, {V1: true, DataPad: 300}}
+	cfgs := []lab.Cfg{{}, {DataPad: 9, IndexPad: 3}, {V1: true}, {StoreID: true, Sorted: true}, {WholeCID: true, AllowDup: true}, {DataPad: 1413, StoreID: true, WholeCID: true}, {V1: true, DataPad: 300}, {MaxSec: 64}}
 	if g.Thorough() {
 		cfgs = append(cfgs, lab.Cfg{V1: true, StoreID: true}, lab.Cfg{IndexPad: 1024, Sorted: true}, lab.Cfg{V1: true, AllowDup: true, WholeCID: true}, lab.Cfg{DataPad: 1, ZeroEOF: true})
 	}
@@ -319,6 +340,11 @@ func genC12(g *mon.G) {
 			if !cfg.AllowDup && !cfg.WholeCID && cfg.DataPad <= 9 && !cfg.StoreID {
 				for _, big := range []int{8<<20 - 36, 8<<20 + 1} { // a section of exactly / just over the default section limit of the readers
 					g.Emit(c12Desc{Seed: r.Int63(), API: api, Cfg: cfg, N: 2, Kind: "interrupt", Big: big})
+				}
+			}
+			if cfg.DataPad <= 9 && !cfg.AllowDup {
+				for _, nr := range []int{1, 23, 24, 25} {
+					g.Emit(c12Desc{Seed: r.Int63(), API: api, Cfg: cfg, N: 2, Kind: "interrupt", Roots: nr})
 				}
 			}
 			for rep := 0; rep < g.Pick(4, 40); rep++ {
@@ -340,6 +366,6 @@ func init() {
 		Assumptions: []string{"byte equality only; permuted roots are not a mismatch (documented)", "a storage CAR has no Discard: dropping the object models it"},
 		Gen:         genC12,
 		Run:         runC12,
-		MinCover:    map[string]int{"interruption-strings": 1000, "interrupt:discard": 500, "interrupt:finalize": 500, "mismatch:root-replaced": 10, "mismatch:root-added": 10, "mismatch:data-padding-larger": 10, "mismatch:data-padding-beyond-the-file": 10, "mismatch:wrong-version": 10, "api:blockstore": 10, "api:storage": 10, "big-section": 4, "storage-backend-with-eager-eof": 10},
+		MinCover:    map[string]int{"interruption-strings": 1000, "interrupt:discard": 500, "interrupt:finalize": 500, "mismatch:root-replaced": 10, "mismatch:root-added": 10, "mismatch:data-padding-larger": 10, "mismatch:data-padding-beyond-the-file": 10, "mismatch:wrong-version": 10, "api:blockstore": 10, "api:storage": 10, "big-section": 4, "header-shape:many-roots": 8, "storage-backend-with-eager-eof": 10, "storage-v1-on-a-backend-without-truncate": 3},
 	})
 }
